@@ -166,6 +166,7 @@ def strat_fields(draw):
         "dm": draw(st.one_of(st.just(0.0), st.floats(0, 5000, allow_nan=False))),
         "az": draw(st.floats(0, 360, allow_nan=False, exclude_max=True)), "za": draw(st.floats(0, 90, allow_nan=False)),
         "angle_unit": draw(st.sampled_from(["deg", "deg", "rad", "hourangle", "arcmin"])),
+        "before": draw(st.sampled_from([None, None, "nbits_kw", "updates"])),
         "nifs": draw(st.sampled_from([1, 1, 2, 4])),
         "rawdatafile": draw(st.sampled_from(["", "raw.dat", "a/b/c.raw"])),
         "signed": draw(st.booleans()),
@@ -204,6 +205,13 @@ def check_fields(case, ctx):
                  ibeam=case["ibeam"], nbeams=case["nbeams"], dm=case["dm"], rawdatafile=case["rawdatafile"],
                  signed=case["signed"])
     try:
+        before = case.get("before")
+        if before:
+            # an earlier output of the same session, written the way to_tim / requantize / subband prepare theirs (a depth or
+            # other fields overridden for that file only): nothing of it may leak into the header written next
+            other = hdr.new_header({"nbits": 32 if case["nbits"] != 32 else 8, "nchans": case["nchans"] + 3, "source": "EARLIER"})
+            kw = {"nbits": 1 if case["nbits"] != 1 else 2} if before == "nbits_kw" else {"updates": {"nbits": 16, "nchans": 7, "source": "OVERRIDE", "tsamp": 9.0}}
+            other.prep_outfile(os.path.join(d, "earlier.fil"), **kw).close()
         out = hdr.prep_outfile(p)
         out.close()
         back = Header.from_sigproc(p)
